@@ -11,6 +11,17 @@
   Hypotheses named explicitly:
     * job numbers are not reused within a session (guard of the `task` step, `j ∉ used`);
     * no Cancel (C14), no shutdown / migration (C16) during the history.
+
+  Scope notes (from an adversarial review of these statements, see DESIGN.md Appendix B.5):
+  * these are theorems about the acceptor `stepS?`: they show that its local guards jointly imply
+    the global property. That the real code only produces traces the acceptor accepts is the runtime
+    trace validation of the harness (sampling), not a theorem. `drop_only_when_full`,
+    `task_refused_iff_full`, `other_sessions_untouched` read back single guards on purpose: they are
+    the points at which a real trace is rejected.
+  * the acceptor has no capacity guard on the non-drop outcomes of a result; key material (re-key,
+    sync) and channel switches are stutter steps for every field the theorems mention.
+  * `Proto.lean` refuses a caller-supplied Job number below 2, `Job.lean` (C14) registers it as the
+    code does; the harness never supplies one (see C14 scope notes).
 -/
 import XMT.ProtoLemmas
 import XMT.ProtoProgress
